@@ -114,48 +114,48 @@ pub fn builtin_function<NumericTypes: EvalexprNumericTypes>(
             .into())
         })),
         "min" => Some(Function::new(|argument| {
-            let arguments = argument.as_tuple()?;
-            let mut min_int = NumericTypes::Int::MAX;
-            let mut min_float = NumericTypes::Float::MAX;
-            debug_assert!(min_float.is_infinite());
+            // A single number is its own minimum
+            let arguments = match argument {
+                Value::Float(_) | Value::Int(_) => vec![argument.clone()],
+                _ => argument.as_tuple()?,
+            };
+            let mut min: Option<Value<NumericTypes>> = None;
 
             for argument in arguments {
-                if let Value::Float(float) = argument {
-                    min_float = min_float.min(&float);
-                } else if let Value::Int(int) = argument {
-                    min_int = min_int.min(int);
-                } else {
-                    return Err(EvalexprError::expected_number(argument));
+                // Compare numerically, but keep the argument with its own type
+                let number = argument.as_number()?;
+                let is_smaller = match &min {
+                    Some(min) => number < min.as_number()?,
+                    None => true,
+                };
+                if is_smaller {
+                    min = Some(argument);
                 }
             }
 
-            if (NumericTypes::int_as_float(&min_int)) < min_float {
-                Ok(Value::Int(min_int))
-            } else {
-                Ok(Value::Float(min_float))
-            }
+            min.ok_or_else(|| EvalexprError::wrong_function_argument_amount_range(0, 1..=usize::MAX))
         })),
         "max" => Some(Function::new(|argument| {
-            let arguments = argument.as_tuple()?;
-            let mut max_int = NumericTypes::Int::MIN;
-            let mut max_float = NumericTypes::Float::MIN;
-            debug_assert!(max_float.is_infinite());
+            // A single number is its own maximum
+            let arguments = match argument {
+                Value::Float(_) | Value::Int(_) => vec![argument.clone()],
+                _ => argument.as_tuple()?,
+            };
+            let mut max: Option<Value<NumericTypes>> = None;
 
             for argument in arguments {
-                if let Value::Float(float) = argument {
-                    max_float = max_float.max(&float);
-                } else if let Value::Int(int) = argument {
-                    max_int = max_int.max(int);
-                } else {
-                    return Err(EvalexprError::expected_number(argument));
+                // Compare numerically, but keep the argument with its own type
+                let number = argument.as_number()?;
+                let is_larger = match &max {
+                    Some(max) => number > max.as_number()?,
+                    None => true,
+                };
+                if is_larger {
+                    max = Some(argument);
                 }
             }
 
-            if (NumericTypes::int_as_float(&max_int)) > max_float {
-                Ok(Value::Int(max_int))
-            } else {
-                Ok(Value::Float(max_float))
-            }
+            max.ok_or_else(|| EvalexprError::wrong_function_argument_amount_range(0, 1..=usize::MAX))
         })),
         "if" => Some(Function::new(|argument| {
             let mut arguments = argument.as_fixed_len_tuple(3)?;
